@@ -22,7 +22,11 @@ import (
 
 var simBase = time.Unix(1_700_000_000, 0).UTC()
 
-var errInjected = errors.New("injected fault")
+var errInjectedPlain = errors.New("injected fault")
+var errInjected = errInjectedPlain
+
+// an adapter with its own per-call timeout reports failures that wrap context.DeadlineExceeded (option dl=1)
+var errInjectedDeadline = fmt.Errorf("adapter call timed out: %w", context.DeadlineExceeded)
 
 const (
 	dOk = iota
@@ -86,6 +90,7 @@ type sim struct {
 	timers  []workflow.TimeoutRecord
 	nextTid int64
 	now     int64
+	blind bool // the record store ignores context cancellation (option blind=1)
 	stamp   bool
 	// scheduling
 	roles    map[string]*proc
@@ -123,7 +128,11 @@ func (s *sim) decide(p *proc, kind string) int {
 		return dCancel
 	}
 	if p != nil && !noCtx(kind) && (p.lease == nil || !p.lease.live) {
-		return dCancel
+		// a record store that does not look at the context (like memrecordstore) still answers once the role is gone;
+		// only used by scenarios in which the repaired engine makes no store call after a lost role (option blind=1)
+		if !(s.blind && (kind == "LK" || kind == "LT" || kind == "ST")) {
+			return dCancel
+		}
 	}
 	for _, f := range s.plan {
 		if f.kind == kind && f.occ == occ {
